@@ -4,6 +4,7 @@ import (
 	"fmt"
 	"go/token"
 	"go/types"
+	"sort"
 	"strings"
 
 	"golang.org/x/tools/go/ssa"
@@ -275,7 +276,7 @@ func runC12(c *Checker) {
 	closeQuit := one("close(quit)", findCalls(body, func(ci ssa.CallInstruction) bool {
 		return isBuiltinCall(ci, "close") && fieldOfValue(ci.Common().Args[0]) == fQuit
 	}))
-	finSend := one("FIN send", findCalls(body, func(ci ssa.CallInstruction) bool {
+	isFin := func(ci ssa.CallInstruction) bool {
 		sc := ci.Common().StaticCallee()
 		if sc == nil || sc.Name() != "sendPacket" {
 			return false
@@ -288,7 +289,29 @@ func runC12(c *Checker) {
 			}
 		}
 		return false
-	}))
+	}
+	// the FIN is sent by the once body itself or by a goroutine the once body starts for it; finPoint
+	// is the instruction of the once body at which the attempt begins (the call, or the go statement)
+	fins := findCalls(body, isFin)
+	var finPoints []ssa.Instruction
+	for _, f := range fins {
+		finPoints = append(finPoints, f)
+	}
+	allInstrs(body, func(in ssa.Instruction) {
+		if g, ok := in.(*ssa.Go); ok {
+			if mc, ok := g.Common().Value.(*ssa.MakeClosure); ok {
+				for _, f := range findCalls(mc.Fn.(*ssa.Function), isFin) {
+					fins = append(fins, f)
+					finPoints = append(finPoints, g)
+				}
+			}
+		}
+	})
+	finSend := one("FIN send", fins)
+	var finPoint ssa.Instruction
+	if finSend != nil {
+		finPoint = finPoints[0]
+	}
 	cancelCall := one("cancel()", findCalls(body, func(ci ssa.CallInstruction) bool {
 		return fieldOfValue(ci.Common().Value) == fCancel
 	}))
@@ -305,17 +328,30 @@ func runC12(c *Checker) {
 		return ok && structFieldOf(fa) == fWG
 	}))
 	if closeQuit != nil {
-		for name, x := range map[string]ssa.CallInstruction{"FIN send": finSend, "cancel()": cancelCall, "sendQueue.stop()": stopQ, "wg.Wait()": wait} {
-			if x == nil {
-				continue
+		ordered := map[string]ssa.Instruction{}
+		if finPoint != nil {
+			ordered["FIN send"] = finPoint
+		}
+		for name, x := range map[string]ssa.CallInstruction{"cancel()": cancelCall, "sendQueue.stop()": stopQ, "wg.Wait()": wait} {
+			if x != nil {
+				ordered[name] = x
 			}
+		}
+		for name, x := range ordered {
 			c.decide(instrDominates(closeQuit, x), "ORDER", "Close|close(quit) before "+name, instrPos(x), "close(quit) dominates "+name,
 				"close(quit) does not come first: "+name+" can run while Send/Recv and the loops are not yet told to stop")
 		}
 	}
 	if finSend != nil {
 		// context of the FIN: WithTimeout(g.ctx, ...)
-		ctxArg := finSend.Common().Args[1]
+		ctxArg := unwrapLoadAlloc(finSend.Common().Args[1])
+		if u, ok := ctxArg.(*ssa.UnOp); ok && u.Op == token.MUL {
+			if fv, ok := u.X.(*ssa.FreeVar); ok {
+				if _, st := freeVarBinding(fv); st != nil {
+					ctxArg = st
+				}
+			}
+		}
 		okCtx := false
 		if ex, ok := ctxArg.(*ssa.Extract); ok && ex.Index == 0 {
 			if call, ok := ex.Tuple.(*ssa.Call); ok && (staticCalleeIs(call.Common(), "context", "", "WithTimeout") || staticCalleeIs(call.Common(), "context", "", "WithDeadline")) {
@@ -336,14 +372,55 @@ func runC12(c *Checker) {
 				}
 			}
 		})
-		okLeg := defBody != nil && (defBody == finSend.Block() || defBody.Dominates(finSend.Block()))
+		okLeg := defBody != nil && (defBody == finPoint.Block() || defBody.Dominates(finPoint.Block()))
 		c.decide(okLeg, "ORDER", "Close|FIN only if peer has not closed", instrPos(finSend), "the FIN send is on the default leg of the remoteClosed poll",
 			"the FIN attempt is not tied to the remoteClosed poll")
 		if cancelCall != nil {
-			c.decide(!pathExists(cancelCall, finSend, nil), "ORDER", "Close|no FIN after cancel", instrPos(finSend), "no path from cancel() to the FIN send",
+			// F16: the transport callback may wait for something that only g.cancel() releases (the
+			// mailbox callbacks take a mutex that an in-flight send of the send loop holds across its
+			// whole reconnect loop, and a mutex does not watch the FIN timeout). Whatever Close does in
+			// its own goroutine before cancel() must therefore not run through a transport callback.
+			var through []string
+			allInstrs(body, func(in ssa.Instruction) {
+				ci, ok := in.(ssa.CallInstruction)
+				if !ok {
+					return
+				}
+				if _, isGo := in.(*ssa.Go); isGo {
+					return
+				}
+				if instrDominates(cancelCall, in) || in == ssa.Instruction(cancelCall) {
+					return
+				}
+				// statically resolved callees only (a method of the connection, a closure of the once
+				// body): a call through a function value of unknown origin is not guessed at
+				var callees []*ssa.Function
+				if sc := ci.Common().StaticCallee(); sc != nil {
+					callees = append(callees, sc)
+				} else if mc, ok := ci.Common().Value.(*ssa.MakeClosure); ok {
+					callees = append(callees, mc.Fn.(*ssa.Function))
+				}
+				for _, callee := range callees {
+					if !w.inTargets(callee) {
+						continue
+					}
+					for fn2 := range w.ReachableSameGoroutine(callee) {
+						for _, bp := range w.blockingPoints(fn2) {
+							if bp.Kind == "callback" {
+								through = append(through, fnName(callee)+" -> "+bp.Desc+" at "+w.pos(instrPos(in)))
+							}
+						}
+					}
+				}
+			})
+			sort.Strings(through)
+			c.decide(len(through) == 0, "ORDER", "Close|no transport callback in Close's own goroutine before cancel()", instrPos(cancelCall),
+				"before cancel() the once body itself never waits inside a transport callback (the FIN is sent by a helper goroutine that is waited for with the FIN timeout as alternative)",
+				"Close waits inside a transport callback before it cancels the context ("+strings.Join(through, "; ")+"): the callback can block on a lock held by an in-flight send of the send loop, which only cancel() releases, and a lock does not watch the FIN timeout - Close hangs for as long as the relay's write side is down")
+			c.decide(!pathExists(cancelCall, finPoint, nil), "ORDER", "Close|no FIN after cancel", instrPos(finSend), "no path from cancel() to the FIN send",
 				"the FIN can be sent after the context was cancelled: it can never reach the peer")
 			if defBody != nil && len(defBody.Instrs) > 0 {
-				skip := pathExists(defBody.Instrs[0], cancelCall, func(in ssa.Instruction) bool { return in == ssa.Instruction(finSend) })
+				skip := pathExists(defBody.Instrs[0], cancelCall, func(in ssa.Instruction) bool { return in == finPoint })
 				c.decide(!skip, "ORDER", "Close|FIN before cancel on the open leg", instrPos(cancelCall), "every path to cancel() on the open leg passes the FIN send",
 					"on the leg where the peer has not closed, cancel() can be reached without attempting the FIN")
 			}
@@ -378,7 +455,7 @@ func runC12(c *Checker) {
 		c.decide(skipRet == "", "ORDER", "Close|"+name+" on every path", instrPos(x), name+" is passed on every path through the once body",
 			"the once body can return at "+skipRet+" without "+name+" (e.g. when the FIN cannot be sent): the Once is spent, so the context is never cancelled / the loops are never waited for / the tickers never stopped")
 	}
-	c.floor("ORDER", 13)
+	c.floor("ORDER", 14)
 
 	// ---- LIFE: tickers and timers ----
 	isTickerCtor := func(v ssa.Value) (string, bool) {
@@ -853,8 +930,17 @@ func checkExitOf(c *Checker, fn *ssa.Function, fCtx *types.Var) bool {
 				c.fail("EXIT", key, instrPos(bp.Instr), "bare channel send that can block forever (unbuffered or inside a cycle)")
 			}
 		case "recv":
-			all = false
-			c.fail("EXIT", fmt.Sprintf("%s|recv %s", fnName(fn), bp.Desc), instrPos(bp.Instr), "bare channel receive without alternative")
+			key := fmt.Sprintf("%s|recv %s", fnName(fn), bp.Desc)
+			var ch ssa.Value
+			if u, ok := bp.Instr.(*ssa.UnOp); ok {
+				ch = u.X
+			}
+			if okk, why := joinedAfterCancel(c, fn, bp.Instr, ch, fCtx); okk {
+				c.ok("EXIT", key, instrPos(bp.Instr), why)
+			} else {
+				all = false
+				c.fail("EXIT", key, instrPos(bp.Instr), "bare channel receive without alternative ("+why+")")
+			}
 		case "wait":
 			key := fmt.Sprintf("%s|%s.Wait()", fnName(fn), strings.TrimPrefix(bp.Desc, "&"))
 			dom := findCalls(fn, func(ci ssa.CallInstruction) bool {
@@ -937,6 +1023,108 @@ func closedByParentDefer(fn *ssa.Function, fv *ssa.FreeVar) bool {
 	return res
 }
 
+// freeVarBinding: the value bound to a closure's free variable at the (single) place the closure is
+// made; for a variable captured by reference, the only value ever stored to it.
+func freeVarBinding(fv *ssa.FreeVar) (binding ssa.Value, stored ssa.Value) {
+	fn := fv.Parent()
+	par := fn.Parent()
+	if par == nil {
+		return nil, nil
+	}
+	idx := -1
+	for i, x := range fn.FreeVars {
+		if x == fv {
+			idx = i
+		}
+	}
+	n := 0
+	allInstrs(par, func(in ssa.Instruction) {
+		if mc, ok := in.(*ssa.MakeClosure); ok && mc.Fn == fn && idx >= 0 && idx < len(mc.Bindings) {
+			n++
+			binding = mc.Bindings[idx]
+		}
+	})
+	if n != 1 {
+		return nil, nil
+	}
+	if al, ok := binding.(*ssa.Alloc); ok {
+		if st := localStores(al); len(st) == 1 {
+			stored = st[0]
+		}
+	}
+	return binding, stored
+}
+
+// joinedAfterCancel: the bare receive `<-ch` in fn waits for a goroutine that fn itself started, that
+// closes ch when it returns (deferred close), and whose own waits all have a termination
+// alternative tied to g.ctx - and the receive comes after g.cancel(): the wait ends as soon as the
+// goroutine notices the cancellation.
+func joinedAfterCancel(c *Checker, fn *ssa.Function, recv ssa.Instruction, ch ssa.Value, fCtx *types.Var) (bool, string) {
+	w := c.w
+	var chAlloc *ssa.Alloc
+	switch x := ch.(type) {
+	case *ssa.UnOp:
+		chAlloc, _ = x.X.(*ssa.Alloc)
+	}
+	if chAlloc == nil {
+		return false, "the channel is not a local of the function"
+	}
+	fCancel := w.Field("gbn.GoBackNConn.cancel")
+	cancels := findCalls(fn, func(ci ssa.CallInstruction) bool { return fCancel != nil && fieldOfValue(ci.Common().Value) == fCancel })
+	domCancel := false
+	for _, cc := range cancels {
+		if instrDominates(cc, recv) {
+			domCancel = true
+		}
+	}
+	if !domCancel {
+		return false, "the receive is not preceded by g.cancel()"
+	}
+	why := "no goroutine started by the function closes the channel on return"
+	okk := false
+	allInstrs(fn, func(in ssa.Instruction) {
+		g, isGo := in.(*ssa.Go)
+		if !isGo {
+			return
+		}
+		mc, isMC := g.Common().Value.(*ssa.MakeClosure)
+		if !isMC {
+			return
+		}
+		cl := mc.Fn.(*ssa.Function)
+		closes := false
+		allInstrs(cl, func(i2 ssa.Instruction) {
+			d, isD := i2.(*ssa.Defer)
+			if !isD || !isBuiltinCall(d, "close") {
+				return
+			}
+			if fv, isFV := unwrapLoadAlloc(d.Common().Args[0]).(*ssa.FreeVar); isFV {
+				if b, _ := freeVarBinding(fv); b == ssa.Value(chAlloc) {
+					closes = true
+				}
+			} else if u, isU := d.Common().Args[0].(*ssa.UnOp); isU {
+				if fv, isFV := u.X.(*ssa.FreeVar); isFV {
+					if b, _ := freeVarBinding(fv); b == ssa.Value(chAlloc) {
+						closes = true
+					}
+				}
+			}
+		})
+		if !closes {
+			return
+		}
+		if !checkExitOf(c, cl, fCtx) {
+			why = "the joined goroutine " + fnName(cl) + " has a wait that the cancellation does not end"
+			return
+		}
+		okk = true
+	})
+	if okk {
+		return true, "joins a goroutine of this function that closes the channel on return; after g.cancel()"
+	}
+	return false, why
+}
+
 // ctxDerived: v is g.ctx, context.WithTimeout/WithCancel(g.ctx, ...), or a
 // parameter that every caller fills with such a value.
 func ctxDerived(w *World, v ssa.Value, fCtx *types.Var, depth int) (bool, string) {
@@ -952,6 +1140,22 @@ func ctxDerived(w *World, v ssa.Value, fCtx *types.Var, depth int) (bool, string
 			okk, why := ctxDerived(w, call.Common().Args[0], fCtx, depth+1)
 			return okk, "derived from " + why
 		}
+	}
+	if u, ok := v.(*ssa.UnOp); ok && u.Op == token.MUL {
+		if fv, ok := u.X.(*ssa.FreeVar); ok {
+			v = fv
+		}
+	}
+	if fv, ok := v.(*ssa.FreeVar); ok {
+		// a context captured by a closure: the value of the captured variable
+		if b, st := freeVarBinding(fv); st != nil {
+			return ctxDerived(w, st, fCtx, depth+1)
+		} else if b != nil {
+			if _, isAlloc := b.(*ssa.Alloc); !isAlloc {
+				return ctxDerived(w, b, fCtx, depth+1)
+			}
+		}
+		return false, "captured variable with more than one assignment"
 	}
 	if p, ok := v.(*ssa.Parameter); ok {
 		sites, closed := w.CallersOf(p.Parent())
